@@ -42,7 +42,7 @@ Proof. intros Hl Ha. pose proof (legal_tlen l Hl) as [Htl _].
     unfold g_maxmsg, max_message_length, geom_of; cbn [g_tlen]; rewrite Z.quot_div_nonneg by lia; reflexivity. Qed.
 
 Section Flow.
-Variables (m : mode) (rv : Z -> Z -> Z) (s : pubstate) (n off : Z).
+Variables (m : mode) (rv : Z -> Z -> list Z -> Z) (s : pubstate) (n off : Z).
 Hypothesis Hinv : pub_inv n off s.
 Variables (s0 : pubstate) (r0 : outcome Z) (n0 off0 : Z).
 Local Notation l := (ps_log s).
